@@ -354,7 +354,7 @@ func (r *runner) report(fs []*failure) {
 		key, detail string
 		scen        any
 	}
-	results := make([]res, len(order))
+	results := make([][]res, len(order))
 	maxGroups := 6
 	projgen.Parallel(len(order), 3, func(gi int) {
 		g := groups[order[gi]]
@@ -364,70 +364,101 @@ func (r *runner) report(fs []*failure) {
 			}
 			return len(g[i].step.Row.NonDefault()) < len(g[j].step.Row.NonDefault())
 		})
-		f := g[0]
-		seed := stepSeed(f.ch, f.step)
-		scen := map[string]any{"chain": f.ch, "failed_step": f.step.Step, "outcome": f.out, "files": f.project.Files, "yaml2": f.project.YAML2,
-			"other_failing_points": len(g) - 1}
-		label := "unminimised"
-		evolutionOnly := false
-		id := fmt.Sprintf("%d", gi)
-		if f.step.Step > 1 && f.quirk == "" {
-			// does the row fail on a clean directory as well?
-			o := fresh(id+"_f", f.step.Row, seed, f.ch.NFiles, f.out.BuildRun, 1)
-			if o.OK() {
-				evolutionOnly = true
+		// One message class can have several independent causes (the same "undefined: X" under two
+		// different identifier features): after the representative has been minimised to the factor set
+		// M, the members whose row does NOT contain M cannot be explained by it; they are reported as a
+		// group of their own (at most 3 rounds), so that every dimension that fails shows in the keys.
+		members := g
+		for round := 0; round < 3 && len(members) > 0; round++ {
+			f := members[0]
+			seed := stepSeed(f.ch, f.step)
+			scen := map[string]any{"chain": f.ch, "failed_step": f.step.Step, "outcome": f.out, "files": f.project.Files, "yaml2": f.project.YAML2}
+			label := "unminimised"
+			evolutionOnly := false
+			var minSet []string
+			var minRow projgen.C17Row
+			id := fmt.Sprintf("%d_%d", gi, round)
+			if f.step.Step > 1 && f.quirk == "" {
+				// does the row fail on a clean directory as well?
+				o := fresh(id+"_f", f.step.Row, seed, f.ch.NFiles, f.out.BuildRun, 1)
+				if o.OK() {
+					evolutionOnly = true
+				}
 			}
-		}
-		// a step whose input equals the previous step's (action Again of the specification): the row
-		// generates in a clean directory and fails when generated again on top of its own output
-		regenerate := evolutionOnly && len(changed(f.ch.Steps[f.step.Step-2].Row, f.step.Row)) == 0
-		switch {
-		case f.quirk != "":
-			label = "quirk:" + f.quirk
-			scen["note"] = "probe row of a construct that is pinned to FALSE in the cover because it triggers a known defect; everything else in the row is at its default"
-		case regenerate:
-			label = "regenerate"
-			scen["note"] = fmt.Sprintf("the row generates and compiles in a clean directory; Generate step %d in the same directory, with NOTHING changed, does not", f.step.Step)
-			if gi < maxGroups {
-				min, mrow, complete := minimise(id, f.step.Row, seed, f.ch.NFiles, f.out.Kind, f.out.BuildRun, 40, f.step.Step)
-				label = "regenerate(" + mrow.Label(min) + ")"
+			// a step whose input equals the previous step's (action Again of the specification): the row
+			// generates in a clean directory and fails when generated again on top of its own output
+			regenerate := evolutionOnly && len(changed(f.ch.Steps[f.step.Step-2].Row, f.step.Row)) == 0
+			switch {
+			case f.quirk != "":
+				label = "quirk:" + f.quirk
+				scen["note"] = "probe row of a construct that is pinned to FALSE in the cover because it triggers a known defect; everything else in the row is at its default"
+			case regenerate:
+				label = "regenerate"
+				scen["note"] = fmt.Sprintf("the row generates and compiles in a clean directory; Generate step %d in the same directory, with NOTHING changed, does not", f.step.Step)
+				if gi < maxGroups {
+					min, mrow, complete := minimise(id, f.step.Row, seed, f.ch.NFiles, f.out.Kind, f.out.BuildRun, 40, f.step.Step)
+					label = "regenerate(" + mrow.Label(min) + ")"
+					if !complete {
+						label += "(not minimal)"
+					} else {
+						minSet, minRow = min, mrow
+					}
+					scen["minimal_factors"] = min
+					scen["minimal_row"] = mrow
+				}
+			case evolutionOnly:
+				label = "evolution(" + f.step.Row.Label(changed(f.ch.Steps[f.step.Step-2].Row, f.step.Row)) + ")"
+				scen["note"] = "the row generates and compiles in a clean directory; it fails only on top of the previous step's output"
+			case gi < maxGroups:
+				min, mrow, complete := minimise(id, f.step.Row, seed, f.ch.NFiles, f.out.Kind, f.out.BuildRun, 60, 1)
+				label = mrow.Label(min)
+				if label == "" {
+					label = "defaults"
+				}
 				if !complete {
 					label += "(not minimal)"
+				} else if len(min) > 0 {
+					minSet, minRow = min, mrow
 				}
+				mp := projgen.C17Render("", "verifharness/gen/c17_min", mrow, seed, f.ch.NFiles)
 				scen["minimal_factors"] = min
 				scen["minimal_row"] = mrow
+				scen["minimal_files"] = mp.Files
+				scen["minimal_yaml2"] = mp.YAML2
 			}
-		case evolutionOnly:
-			label = "evolution(" + f.step.Row.Label(changed(f.ch.Steps[f.step.Step-2].Row, f.step.Row)) + ")"
-			scen["note"] = "the row generates and compiles in a clean directory; it fails only on top of the previous step's output"
-		case gi < maxGroups:
-			min, mrow, complete := minimise(id, f.step.Row, seed, f.ch.NFiles, f.out.Kind, f.out.BuildRun, 60, 1)
-			label = mrow.Label(min)
-			if label == "" {
-				label = "defaults"
+			// members the minimal factor set explains / does not explain
+			var same, rest []*failure
+			for _, m := range members {
+				explained := !(regenerate && m.step.Step == 1)
+				for _, fac := range minSet {
+					if fmt.Sprint(m.step.Row[fac]) != fmt.Sprint(minRow[fac]) {
+						explained = false
+					}
+				}
+				if explained || m == f {
+					same = append(same, m)
+				} else {
+					rest = append(rest, m)
+				}
 			}
-			if !complete {
-				label += "(not minimal)"
+			scen["other_failing_points"] = len(same) - 1
+			key := fmt.Sprintf("%s/%s/%s", f.out.Kind, label, f.out.Class)
+			if f.quirk != "" {
+				// the probe row passes without the trigger (it is one of the enumerated rows), so the
+				// failure is attributed to the trigger; the message text is left out of the key
+				// (it differs between the generator's validation pass, go vet and go build)
+				key = fmt.Sprintf("quirk:%s/%s", f.quirk, f.out.Kind)
 			}
-			mp := projgen.C17Render("", "verifharness/gen/c17_min", mrow, seed, f.ch.NFiles)
-			scen["minimal_factors"] = min
-			scen["minimal_row"] = mrow
-			scen["minimal_files"] = mp.Files
-			scen["minimal_yaml2"] = mp.YAML2
+			detail := fmt.Sprintf("prescribed outcome ok=true compiles=true; observed gen=%s (pass %d) typechecks=%v vet=%v [%s]\nrow (start %d, step %d) non-default factors: %s\nminimal failing factor set: %s\n%d further point(s) fail the same way and contain that factor set\n%s",
+				f.out.Gen, f.out.Pass, f.out.Build, f.out.Vet, f.out.Kind, f.ch.Start, f.step.Step, strings.Join(f.step.Row.NonDefault(), " "), label, len(same)-1, f.out.Detail)
+			results[gi] = append(results[gi], res{key, detail, scen})
+			members = rest
 		}
-		key := fmt.Sprintf("%s/%s/%s", f.out.Kind, label, f.out.Class)
-		if f.quirk != "" {
-			// the probe row passes without the trigger (it is one of the enumerated rows), so the
-			// failure is attributed to the trigger; the message text is left out of the key
-			// (it differs between the generator's validation pass, go vet and go build)
-			key = fmt.Sprintf("quirk:%s/%s", f.quirk, f.out.Kind)
-		}
-		detail := fmt.Sprintf("prescribed outcome ok=true compiles=true; observed gen=%s (pass %d) typechecks=%v vet=%v [%s]\nrow (start %d, step %d) non-default factors: %s\nminimal failing factor set: %s\n%d further point(s) fail the same way\n%s",
-			f.out.Gen, f.out.Pass, f.out.Build, f.out.Vet, f.out.Kind, f.ch.Start, f.step.Step, strings.Join(f.step.Row.NonDefault(), " "), label, len(g)-1, f.out.Detail)
-		results[gi] = res{key, detail, scen}
 	})
-	for _, x := range results {
-		r.c.Violate(x.key, x.detail, x.scen)
+	for _, rs := range results {
+		for _, x := range rs {
+			r.c.Violate(x.key, x.detail, x.scen)
+		}
 	}
 }
 
